@@ -28,6 +28,7 @@ kf("C08", "C08-forward-reference-inside-bitcast", "the pass that orders module-s
     "C08|compile|default|SPIR-V generation error: SPIR-V generation error: function # not found in functionIDs|F8h/fn/any/bitcast*"])
 kf("C08", "C08-forward-reference-after-nested-shadow", "a local declared in a nested block (or a for initialiser) hides the module-scope const/var of the same name from the declaration-ordering pass for the REST of the function, not only until the block ends: `fn h() -> i32 { { let g = 7; } return g; } const g: i32 = 5;` is rejected with \"unresolved identifier: g\" although the final `g` is the (later-declared) module constant; accepted when the constant is declared first",
    ["C08|lower|-|*function host body: unresolved identifier: g|F8s/const/*/noref/after/decl-after/in-helper", "C08|lower|-|*function host body: unresolved identifier: g|F8s/const/*/noref/after/decl-last/in-helper",
+    "C08|lower|-|*function host body: unresolved identifier: g|F8s/aconst/*/noref/after/decl-after/in-helper", "C08|lower|-|*function host body: unresolved identifier: g|F8s/aconst/*/noref/after/decl-last/in-helper",
     "C08|lower|-|*function host body: unresolved identifier: g|F8s/var/*/noref/after/decl-after/in-helper"])
 kf("C08", "C08-bitcast-alias-target", "`bitcast<AI>(4u)` with `alias AI = i32;` is rejected (\"unsupported bitcast target type 'AI'\") wherever the alias is declared",
    ["C08|lower|-|*bitcast target type: unsupported bitcast target type 'AI'|F8h/alias/only/bitcast-type/*"])
@@ -56,6 +57,11 @@ kf("C01", "C01-switch-all-break-unreachable", "a switch whose every clause ends 
 kf("C01", "C01-private-subobject-pointer-argument", "`f(&x[i])` with x a private array/matrix and f taking ptr<private, T>: the argument is spilled to a Function-class temporary (or an access chain of the wrong class is built), so OpFunctionCall/OpAccessChain pointer types disagree in storage class (invalid SPIR-V)",
    ["C01|F4idx/ptrarg-*/private/*|*|malformed-output:OpFunctionCall*", "C01|F4idx/ptrarg-*/private/*|*|malformed-output:OpAccessChain*"])
 
+kf("C01", "C01-block-const-outlives-block", 'a function-scope `const` without type annotation declared in a nested block stays bound after the block ends (popScope does not drop the deferred initialiser): `const g: i32 = 5; fn h() -> i32 { var acc = 0; { const g = 7; acc += g; } acc += g; return acc; }` returns 14 instead of 12 (same with a module-scope var g)',
+   ["C01|F8s/*/blk-const/noref/after/*|*|mismatch"])
+kf("C01", "C01-workgroup-size-forward-const", '`@workgroup_size(WG)` with `const WG: u32 = 2u;` declared AFTER the entry point is compiled with workgroup size 1 (no error); with the const declared first it is 2',
+   ["C01|F8o/workgroup-size-const/*|*|mismatch"])
+
 # ---------------------------------------------------------------- C03 (HLSL semantics)
 kf("C03", "C03-clz-ctz", "countLeadingZeros/countTrailingZeros are emitted as bare firstbithigh/firstbitlow (clz(1)=0, ctz(0)=0xFFFFFFFF instead of 32)",
    ["C03|F1/call/countLeadingZeros/*|*|mismatch", "C03|F1/call/countTrailingZeros/*|*|mismatch"])
@@ -65,6 +71,15 @@ kf("C03", "C03-sign-int", "sign(f32) result is stored through asuint(sign(x)); H
    ["C03|F1/call/sign/*f32*|*|mismatch"])
 kf("C03", "C03-inverse-hyperbolic", "asinh/acosh/atanh are emitted as calls to functions HLSL does not have (undeclared identifier)",
    ["C03|F1/call/asinh/*|*|malformed-output*", "C03|F1/call/acosh/*|*|malformed-output*", "C03|F1/call/atanh/*|*|malformed-output*"])
+
+kf("C03", "C03-block-const-outlives-block", 'a function-scope `const` without type annotation declared in a nested block stays bound after the block ends (popScope does not drop the deferred initialiser): `const g: i32 = 5; fn h() -> i32 { var acc = 0; { const g = 7; acc += g; } acc += g; return acc; }` returns 14 instead of 12 (same with a module-scope var g)',
+   ["C03|F8s/*/blk-const/noref/after/*|*|mismatch"])
+kf("C03", "C03-workgroup-size-forward-const", '`@workgroup_size(WG)` with `const WG: u32 = 2u;` declared AFTER the entry point is compiled with workgroup size 1 (no error); with the const declared first it is 2',
+   ["C03|F8o/workgroup-size-const/*|*|mismatch"])
+kf("C03", "C03-loop-body-value-in-continuing", 'a value bound in a loop body from a function call and used in the continuing block (`loop { if n >= 2 { break; } let t = f(0) * 2; continuing { n += 1; acc += t; } }`) is emitted in the continuing position as a reference to a name that is never declared' + " (`_f_result`)",
+   ["C03|F8s/fn/loop-let/ref/*|*|malformed-output:undeclared identifier*"])
+kf("C03", "C03-forward-call-inside-bitcast", 'forward call inside a bitcast operand (`bitcast<u32>(f1(1))` with f1 declared later): the callee is lowered and emitted after its caller (see C08-forward-reference-inside-bitcast)' + ": call of an undeclared function in HLSL",
+   ["C03|F8h/fn/any/bitcast*|*|malformed-output:call of undeclared function*"])
 
 # ---------------------------------------------------------------- C04 (MSL semantics)
 kf("C04", "C04-round-ties", "round() is emitted as metal::round (ties away from zero); WGSL requires ties-to-even (metal::rint)",
@@ -76,6 +91,13 @@ kf("C04", "C04-firstLeadingBit-u32", "firstLeadingBit(u32) guards with `x == 0 |
 kf("C04", "C04-int-dot-overflow", "dot() on i32 vectors is emitted as plain `a.x * b.x + ...` on int; signed overflow is undefined in MSL/C++ (WGSL wraps)",
    ["C04|F1/call/dot/*i32*|*|trap:signed-overflow"])
 
+kf("C04", "C04-block-const-outlives-block", 'a function-scope `const` without type annotation declared in a nested block stays bound after the block ends (popScope does not drop the deferred initialiser): `const g: i32 = 5; fn h() -> i32 { var acc = 0; { const g = 7; acc += g; } acc += g; return acc; }` returns 14 instead of 12 (same with a module-scope var g)',
+   ["C04|F8s/*/blk-const/noref/after/*|*|mismatch"])
+kf("C04", "C04-loop-body-value-in-continuing", 'a value bound in a loop body from a function call and used in the continuing block (`loop { if n >= 2 { break; } let t = f(0) * 2; continuing { n += 1; acc += t; } }`) is emitted in the continuing position as a reference to a name that is never declared' + " (the MSL text does not parse)",
+   ["C04|F8s/fn/loop-let/ref/*|*|malformed-output:unexpected*"])
+kf("C04", "C04-forward-call-inside-bitcast", 'forward call inside a bitcast operand (`bitcast<u32>(f1(1))` with f1 declared later): the callee is lowered and emitted after its caller (see C08-forward-reference-inside-bitcast)' + ": use of an undeclared identifier in MSL",
+   ["C04|F8h/fn/any/bitcast*|*|malformed-output:use of undeclared identifier*"])
+
 # ---------------------------------------------------------------- C05 (GLSL semantics)
 kf("C05", "C05-vector-select-ternary", "select() with a vector condition is emitted as `bvec ? a : b`; the ?: condition must be a scalar bool in GLSL (invalid at every version)",
    ["C05|F1/call/select/*|*|malformed-output*"])
@@ -83,6 +105,15 @@ kf("C05", "C05-clz-ctz", "countTrailingZeros is emitted as findLSB (ctz(0) = -1 
    ["C05|F1/call/countLeadingZeros/*|*|m*", "C05|F1/call/countTrailingZeros/*|*|m*"])
 kf("C05", "C05-abs-unsigned", "abs(u32) is emitted as abs(uint), which GLSL does not define (type error)",
    ["C05|F1/call/abs/*u32*|*|malformed-output*", "C05|F4c/*call:abs:u32*|*|malformed-output*"])
+
+kf("C05", "C05-block-const-outlives-block", 'a function-scope `const` without type annotation declared in a nested block stays bound after the block ends (popScope does not drop the deferred initialiser): `const g: i32 = 5; fn h() -> i32 { var acc = 0; { const g = 7; acc += g; } acc += g; return acc; }` returns 14 instead of 12 (same with a module-scope var g)',
+   ["C05|F8s/*/blk-const/noref/after/*|*|mismatch"])
+kf("C05", "C05-workgroup-size-forward-const", '`@workgroup_size(WG)` with `const WG: u32 = 2u;` declared AFTER the entry point is compiled with workgroup size 1 (no error); with the const declared first it is 2',
+   ["C05|F8o/workgroup-size-const/*|*|mismatch"])
+kf("C05", "C05-loop-body-value-in-continuing", 'a value bound in a loop body from a function call and used in the continuing block (`loop { if n >= 2 { break; } let t = f(0) * 2; continuing { n += 1; acc += t; } }`) is emitted in the continuing position as a reference to a name that is never declared' + " (GLSL: the function's name is used as a value)",
+   ["C05|F8s/fn/loop-let/ref/*|*|malformed-output:function*used without a call"])
+kf("C05", "C05-forward-call-inside-bitcast", 'forward call inside a bitcast operand (`bitcast<u32>(f1(1))` with f1 declared later): the callee is lowered and emitted after its caller (see C08-forward-reference-inside-bitcast)' + ": undeclared identifier in GLSL",
+   ["C05|F8h/fn/any/bitcast*|*|malformed-output:undeclared identifier*"])
 
 # ---------------------------------------------------------------- C10 (robustness)
 kf("C10", "C10-swizzle-chain-exponential", "a chained swizzle `v.xyzw.xyzw...` makes lowering time grow exponentially: 64 links (under 400 bytes of source) exceed the CPU cap",
@@ -130,6 +161,11 @@ kf("C09", "C09-const-array-element-store", "`out[0] = positions[1]` with positio
    ["C09|store-type|*|corpus/mesh-shader"])
 kf("C09", "C09-cmpxchg-result-member-emit", "members of the atomicCompareExchangeWeak result used in a later statement are not covered by a dominating Emit",
    ["C09|emit-dominates|*|atomics_workgroup_barriers"])
+
+kf("C09", "C09-alias-scalar-duplicate-type", "`alias AI = i32;` adds a second i32 entry to the type arena: a variable or member declared with the alias has a different type handle than the i32 values stored to it (`alias AI = i32; var<private> g: AI = 1; ... g = g + 1;` stores #2:i32 through ptr<#4:i32>), so the module is not deduplicated",
+   ["C09|store-type|*|F8o/alias-chain/*", "C09|store-type|*|F8o/struct-nest/*", "C09|store-type|*|F8o/var-init/*"])
+kf("C09", "C09-forward-call-inside-bitcast", "forward call inside a bitcast operand (`bitcast<u32>(f1(1))` with f1 declared later): the call is lowered before its callee, so the argument literal stays abstract-int, the call result and the bitcast have no recorded type (see C08-forward-reference-inside-bitcast)",
+   ["C09|call-args|*|F8h/fn/any/bitcast*", "C09|no-abstract|*|F8h/fn/any/bitcast*", "C09|expr-type|*|F8h/fn/any/bitcast*"])
 
 # ---------------------------------------------------------------- C12 (determinism, histories, schedules)
 kf("C12", "C12-backend-version-leak", "a reused spirv.Backend kept options.Version bumped to 1.4 by an earlier Compile (atomicOps-int64, workgroup-var-init): every later module was emitted as SPIR-V 1.4",
